@@ -444,8 +444,8 @@ def rule_range_safety(ctx: Ctx, rule: str) -> None:
     for p in paths:
         cmpv = [v for a, v in p.decisions.items() if a.startswith('ord(') and ' < ' in a]
         lt |= {a for a in p.decisions if a.startswith('ord(')}
-        pops = sum(1 for (_n, name, _a, _k) in p.calls if name == 'result.pop')
-        apps = sum(1 for (_n, name, _a, _k) in p.calls if name == 'result.append')
+        pops = sum(1 for (_n, name, _a, _k) in p.calls if name.replace("'", '') == 'result.pop')
+        apps = sum(1 for (_n, name, _a, _k) in p.calls if name.replace("'", '') == 'result.append')
         rows.add((tuple(cmpv), p.ret, pops, apps))
     ok = bool(lt) and all(a.startswith('ord(last') and '< ord(result[-2]' in a for a in lt) and \
         rows == {((True,), True, 2, 0), ((False,), False, 0, 1)}
